@@ -1,15 +1,15 @@
-SPECIFICATION FairSpec
+SPECIFICATION Spec
 CONSTANTS
   SettingsSpace <- TinySpace
-  LossKinds = {"eof", "reset"}
-  LoginModes = {"ok", "rejected"}
-  BgKinds = {"pparent"}
+  LossKinds = {"reset", "eof", "wfail"}
+  LoginModes = {"ok"}
+  BgKinds = {"pparent", "stimer", "xfer"}
   MaxBg = 1
-  MaxLosses = 2
+  MaxLosses = 1
   MaxLogins = 1
-  SlowScan = {FALSE}
+  SlowScan = {TRUE}
   Env = {"exec", "peerin", "userdisc", "midburst"}
-  MaxConnFail = 1
+  MaxConnFail = 0
   FixAutoJoin = TRUE
   FixDistStopped = TRUE
   FixWatchdogStopped = TRUE
@@ -18,7 +18,7 @@ CONSTANTS
   FixStaleInit = TRUE
   FixSelfAwait = TRUE
   FixQueueOnce = TRUE
-  FixScanStopped = TRUE
+  FixScanStopped = FALSE
 INVARIANT TypeOK
 INVARIANT AdvertisedOnly
 INVARIANT AdvertisedExactly
@@ -30,5 +30,4 @@ INVARIANT ReconnectArmed
 INVARIANT ReconnectOnlyIf
 INVARIANT StopIsFinal
 PROPERTY ReconnectStep
-PROPERTY ReconnectHappens
 CHECK_DEADLOCK FALSE
